@@ -338,7 +338,8 @@ fn json_one(v: &Value) -> String {
         None => "err:parse".into(),
     };
     let t23 = if t2 == t3 { t2 } else { format!("{}|{}", t2, t3) };
-    format!("{} {} {}", hex(text.as_bytes()), t1, t23)
+    let _ = text;
+    format!("{} {}", t1, t23)
 }
 
 /// decoders on arbitrary bytes; runs in a child process (see `dec`).
@@ -384,19 +385,7 @@ fn dec_raw(fmt: &str, bytes: &[u8]) -> String {
             Err(e) => bin_err(&e),
         },
         "snap" => match GrafeoDB::import_snapshot(bytes) {
-            Ok(db) => {
-                let mut ns: Vec<String> = db
-                    .iter_nodes()
-                    .map(|n| {
-                        let mut ps: Vec<String> =
-                            n.properties.iter().map(|(k, v)| format!("{}={}", hex(k.as_str().as_bytes()), tok2(v))).collect();
-                        ps.sort();
-                        format!("{}[{}]", n.id.as_u64(), ps.join(";"))
-                    })
-                    .collect();
-                ns.sort();
-                format!("ok {} {}", list_arg(&ns), db.iter_edges().count())
-            }
+            Ok(db) => format!("ok {} {}", db.iter_nodes().count(), db.iter_edges().count()),
             Err(e) => {
                 let m = e.to_string();
                 if m.contains("unsupported snapshot version") { "err:version".into() } else { "err:decode".into() }
@@ -408,13 +397,31 @@ fn dec_raw(fmt: &str, bytes: &[u8]) -> String {
 
 fn dec(fmt: &str, hexs: &str) -> String {
     use std::process::{Command, Stdio};
-    let exe = std::env::current_exe().unwrap();
-    let mut ch = Command::new(exe).arg("run").stdin(Stdio::piped()).stdout(Stdio::piped()).stderr(Stdio::piped()).spawn().unwrap();
+    // Since fix a3c259e the spill decoder allocates nothing for an announced count, and bincode's Value
+    // decoder never did: inputs of moderate size (no deep recursion) run in-process (a regression would kill
+    // `vh` loudly). import_snapshot still allocates an announced String length up front: snapshot inputs with
+    // a large 8-byte window, and all long inputs, run in a child process, so that an abort is an outcome.
+    if let Some(b) = unhex(hexs) {
+        if (fmt != "snap" || !big_window(&b)) && b.len() < 20_000 {
+            return dec_raw(fmt, &b);
+        }
+    }
+    // /proc/self/exe stays valid when a concurrent `cargo build` replaces the binary on disk
+    let exe = if std::path::Path::new("/proc/self/exe").exists() { std::path::PathBuf::from("/proc/self/exe") } else { std::env::current_exe().unwrap() };
+    let mut ch = match Command::new(exe).arg("run").stdin(Stdio::piped()).stdout(Stdio::piped()).stderr(Stdio::piped()).spawn() {
+        Ok(c) => c,
+        Err(e) => return format!("harness-spawn-failed:{}", e.to_string().replace(' ', "_")),
+    };
     {
         let mut si = ch.stdin.take().unwrap();
-        writeln!(si, "ser decraw {} {}", fmt, hexs).unwrap();
+        if let Err(e) = writeln!(si, "ser decraw {} {}", fmt, hexs) {
+            return format!("harness-pipe-failed:{}", e.to_string().replace(' ', "_"));
+        }
     }
-    let out = ch.wait_with_output().unwrap();
+    let out = match ch.wait_with_output() {
+        Ok(o) => o,
+        Err(e) => return format!("harness-wait-failed:{}", e.to_string().replace(' ', "_")),
+    };
     if out.status.success() {
         String::from_utf8_lossy(&out.stdout).trim().to_string()
     } else {
@@ -460,4 +467,238 @@ pub fn run(args: &[&str]) -> String {
 // ---------------------------------------------------------------------------------------------
 // generation
 
-pub fn generate(_seed: u64, _cases: usize, _out: &mut Vec<String>) {}
+const F64S: [u64; 22] = [
+    0x0000000000000000, 0x8000000000000000, 0x3ff0000000000000, 0xbff0000000000000, 0x7ff0000000000000, 0xfff0000000000000,
+    0x7ff8000000000000, 0xfff8000000000000, 0x7ff0000000000001, 0x7ff4000000000000, 0xffffffffffffffff, 0x7fffffffffffffff,
+    0x0000000000000001, 0x8000000000000001, 0x000fffffffffffff, 0x0010000000000000, 0x7fefffffffffffff, 0x3fb999999999999a,
+    0x4340000000000000, 0x4340000000000001, 0x2d160e7e5c3f42ca, 0x00159283684dba77,
+];
+const F32S: [u32; 14] = [
+    0x00000000, 0x80000000, 0x3f800000, 0x3dcccccd, 0x7f800000, 0xff800000, 0x7fc00000, 0x7f800001, 0xffffffff, 0x00000001,
+    0x007fffff, 0x00800000, 0x7f7fffff, 0x00400000,
+];
+const I64S: [i64; 22] = [
+    0, 1, -1, 125, 126, -125, -126, -127, 250, 251, 32767, 32768, -32768, -32769, 2147483647, 2147483648, -2147483648,
+    -2147483649, i64::MAX, i64::MIN, i64::MAX - 1, i64::MIN + 1,
+];
+const STRS: [&str; 12] = ["", "a", "k", "héllo", "世界", "🌍", "\u{0}", "\"\\\n", "$timestamp_us", "\u{7f}\u{80}\u{7ff}\u{800}\u{ffff}\u{10000}\u{10ffff}", "ab", "b"];
+
+fn gen_f64(r: &mut Rng) -> u64 {
+    match r.below(4) {
+        0 => *r.pick(&F64S),
+        1 => r.next(),
+        2 => ((r.below(16) as f64 - 3.0) * 0.25).to_bits(),
+        _ => ((r.next() % 2001) as f64 / 8.0 - 125.0).to_bits(),
+    }
+}
+
+fn gen_i64(r: &mut Rng) -> i64 {
+    match r.below(4) {
+        0 => *r.pick(&I64S),
+        1 => r.next() as i64,
+        2 => (r.below(70000) as i64) - 35000,
+        _ => {
+            let sh = r.below(64);
+            ((r.next() >> sh) as i64).wrapping_mul(if r.chance(1, 2) { 1 } else { -1 })
+        }
+    }
+}
+
+fn gen_str(r: &mut Rng) -> String {
+    match r.below(6) {
+        0 | 1 => r.pick(&STRS).to_string(),
+        2 => {
+            let n = *r.pick(&[249usize, 250, 251, 252, 300]);
+            "x".repeat(n)
+        }
+        _ => {
+            let n = r.below(6);
+            (0..n).map(|_| *r.pick(&['a', 'Z', '0', ' ', 'é', 'ß', '世', '🌍', '\u{1}', '$'])).collect()
+        }
+    }
+}
+
+fn gen_key(r: &mut Rng) -> String {
+    if r.chance(1, 8) { "$timestamp_us".to_string() } else if r.chance(1, 2) { r.pick(&["a", "b", "k", "", "é", "aa", "ab"]).to_string() } else { gen_str(r) }
+}
+
+pub fn gen_value(r: &mut Rng, depth: u32) -> Value {
+    let kinds = if depth >= 4 { 8 } else { 10 };
+    match r.below(kinds + 2) {
+        0 => Value::Null,
+        1 => Value::Bool(r.chance(1, 2)),
+        2 | 10 => Value::Int64(gen_i64(r)),
+        3 | 11 => Value::Float64(f64::from_bits(gen_f64(r))),
+        4 => Value::String(gen_str(r).into()),
+        5 => {
+            let n = match r.below(8) {
+                0 => 0,
+                1 => *r.pick(&[250usize, 251, 256]),
+                _ => r.below(9) as usize,
+            };
+            Value::Bytes(Arc::from((0..n).map(|_| r.next() as u8).collect::<Vec<u8>>()))
+        }
+        6 => Value::Timestamp(Timestamp::from_micros(gen_i64(r))),
+        7 => {
+            let n = match r.below(8) {
+                0 => 0,
+                1 => 251,
+                _ => r.below(5) as usize,
+            };
+            Value::Vector(Arc::from(
+                (0..n).map(|_| f32::from_bits(if r.chance(1, 2) { *r.pick(&F32S) } else { r.next() as u32 })).collect::<Vec<f32>>(),
+            ))
+        }
+        8 => {
+            let n = match r.below(12) {
+                0 => 0,
+                1 if depth == 0 => 260,
+                _ => r.below(4) as usize,
+            };
+            Value::List(Arc::from((0..n).map(|_| gen_value(r, depth + 1 + (n > 100) as u32 * 3)).collect::<Vec<_>>()))
+        }
+        _ => {
+            let n = r.below(4) as usize;
+            let mut m = BTreeMap::new();
+            for _ in 0..n {
+                m.insert(PropertyKey::new(gen_key(r)), gen_value(r, depth + 1));
+            }
+            Value::Map(Arc::new(m))
+        }
+    }
+}
+
+/// little-endian 8-byte windows whose value lies where the outcome of an allocation depends on the
+/// machine (more than a few MB, less than the address space): such inputs are not generated.
+fn env_dependent(bs: &[u8]) -> bool {
+    bs.windows(8).any(|w| {
+        let v = u64::from_le_bytes(w.try_into().unwrap());
+        v > (1 << 22) && v < (1 << 47)
+    })
+}
+
+fn big_window(bs: &[u8]) -> bool {
+    bs.windows(8).any(|w| u64::from_le_bytes(w.try_into().unwrap()) > (1 << 22))
+}
+
+const EVIL: [u64; 8] = [u64::MAX, 1 << 63, (1 << 63) - 1, 1 << 47, 0x0555_5555_5555_5556, 0x0555_5555_5555_5555, 1 << 62, 3];
+
+/// `filter`: avoid lengths whose allocation outcome depends on the machine (only `import_snapshot` still
+/// allocates an announced length up front: bincode's owned String).
+fn mutate(r: &mut Rng, enc: &[u8], varint: bool, filter: bool) -> (Vec<u8>, bool) {
+    for _ in 0..50 {
+        let mut b = enc.to_vec();
+        let kind = r.below(7);
+        match kind {
+            0 => {
+                let k = r.below(b.len() as u64 + 1) as usize;
+                b.truncate(k);
+            }
+            1 if !b.is_empty() => {
+                let k = r.below(b.len() as u64) as usize;
+                b[k] ^= 1 << r.below(8);
+            }
+            2 if !b.is_empty() => {
+                let k = r.below(b.len() as u64) as usize;
+                b[k] = r.next() as u8;
+            }
+            3 => {
+                // an evil length right after a container / string tag
+                let tag = *r.pick(&[4u8, 5, 7, 8, 9]);
+                let len = if !filter && r.chance(1, 3) { *r.pick(&[1u64 << 32, 1 << 36, 1 << 40, 1 << 46, 5_000_000]) } else { *r.pick(&EVIL) };
+                b = vec![tag];
+                if varint {
+                    b.push(253);
+                }
+                b.extend_from_slice(&len.to_le_bytes());
+                let extra = r.below(4) as usize;
+                b.extend_from_slice(&enc[..extra.min(enc.len())]);
+            }
+            4 => {
+                let n = r.below(12) as usize;
+                b = (0..n).map(|_| if r.chance(1, 2) { r.below(12) as u8 } else { r.next() as u8 }).collect();
+            }
+            5 => {
+                let n = r.below(4) as usize;
+                for _ in 0..n {
+                    b.push(r.next() as u8);
+                }
+            }
+            _ => {}
+        }
+        if !filter || !env_dependent(&b) {
+            return (b, kind == 3 && filter);
+        }
+    }
+    (enc.to_vec(), false)
+}
+
+pub fn generate(seed: u64, cases: usize, out: &mut Vec<String>) {
+    let mut r = Rng::new(seed ^ 0x736572);
+    out.push(format!("# case meta seed {}", seed));
+    out.push("ser meta".into());
+    let mut aborts = 0usize;
+    for c in 0..cases {
+        out.push(format!("# case {} seed {}", c, seed));
+        let v = gen_value(&mut r, 0);
+        let t = tok2(&v);
+        out.push(format!("ser spill {}", t));
+        out.push(format!("ser bin {}", t));
+        out.push(format!("ser json {}", t));
+        out.push(format!("ser wal {}", t));
+        out.push(format!("ser snap {}", t));
+        let n = r.below(4) as usize;
+        let mut row = vec![v.clone()];
+        for _ in 0..n {
+            row.push(gen_value(&mut r, 2));
+        }
+        if r.chance(1, 10) {
+            row.clear();
+        }
+        out.push(format!("ser row {}", row.iter().map(tok2).collect::<Vec<_>>().join(" ")).trim_end().to_string());
+        // arbitrary bytes into the decoders; at most one in ten cases may contain inputs that abort the child
+        let small = if let Value::List(l) = &v { if l.len() > 100 { Value::Null } else { v.clone() } } else { v.clone() };
+        let mut senc = Vec::new();
+        serialize_value(&small, &mut senc).unwrap();
+        let benc = small.serialize();
+        // inputs built around an evil length (they may abort the child, which is slow): one case in eight
+        let mut push_dec = |out: &mut Vec<String>, fmt: &str, m: (Vec<u8>, bool), aborts: &mut usize| {
+            if m.1 {
+                if *aborts * 8 > c {
+                    return;
+                }
+                *aborts += 1;
+            }
+            out.push(format!("ser dec {} {}", fmt, hexd(&m.0)));
+        };
+        let m1 = mutate(&mut r, &senc, false, false);
+        push_dec(out, "spill", m1, &mut aborts);
+        let m2 = mutate(&mut r, &benc, true, false);
+        push_dec(out, "bin", m2, &mut aborts);
+        if c % 3 == 0 {
+            let mut renc = Vec::new();
+            serialize_row(&[small.clone(), Value::Bool(true)], &mut renc).unwrap();
+            let m3 = mutate(&mut r, &renc, false, false);
+            push_dec(out, "row", m3, &mut aborts);
+            // a one-node snapshot with a label and a property, then mutated
+            let db = GrafeoDB::new_in_memory();
+            let n = db.create_node(&["L"]);
+            db.set_node_property(n, "k", small.clone());
+            if r.chance(1, 2) {
+                let n2 = db.create_node(&[]);
+                db.create_edge(n, n2, "E");
+            }
+            let snap = db.export_snapshot().unwrap();
+            let mut m4 = mutate(&mut r, &snap, true, true);
+            if r.chance(1, 6) {
+                // an owned String length that is a lie: version, 1 node, id 0, 1 label of "length" EVIL
+                let mut b = vec![1, 1, 0, 1, 253];
+                b.extend_from_slice(&r.pick(&EVIL).to_le_bytes());
+                m4 = (b, true);
+            }
+            if !env_dependent(&m4.0) {
+                push_dec(out, "snap", m4, &mut aborts);
+            }
+        }
+    }
+}
